@@ -605,6 +605,13 @@ pub mod verif_export {
             }
         }
 
+        /// Run the real `run_client_loop` on an accepted connection, on its own thread
+        /// (as `Server::run` does).
+        pub fn spawn_loop(&self, stream: TcpStream) -> JoinHandle<Result<(), String>> {
+            let state = Arc::clone(&self.0);
+            thread::spawn(move || run_client_loop(stream, &state).map_err(|e| e.to_string()))
+        }
+
         pub fn in_transaction(conn: &Conn) -> bool {
             conn.0.session.is_some()
         }
